@@ -472,7 +472,17 @@ def correspond(run, family, harness, flagset, model_fam, cases, oracle, nontrivi
         run.broken.append('extracted model %s does not build: %s' % (model_fam, (err or '')[-1500:]))
         return
     t = time.time()
-    iout = run_impl(hexe, cases)
+    if flagset == 'w32' and harness in ('h_node', 'h_net') and len(cases) >= 64:
+        # the 32-bit scheduler harnesses fork one child per case (function-local statics of N2kMillis64), so cases are independent of each
+        # other: the batch is split over the cores
+        nch = min(NPROC, max(2, len(cases) // 32))
+        size = (len(cases) + nch - 1) // nch
+        chunks = [cases[k:k + size] for k in range(0, len(cases), size)]
+        with ThreadPoolExecutor(max_workers=nch) as ex:
+            outs = list(ex.map(lambda c: run_impl(hexe, c), chunks))
+        iout = [l for o in outs for l in o]
+    else:
+        iout = run_impl(hexe, cases)
     ti = time.time() - t
     t = time.time()
     if impl_only:
